@@ -100,6 +100,36 @@ fn first_flex(ty: &Ty, v: &Value, path: &mut Vec<u16>) -> Option<Vec<u16>> {
     }
 }
 
+/// Path of the first FlexVec node (any length).
+fn any_flex(ty: &Ty, v: &Value, path: &mut Vec<u16>) -> Option<Vec<u16>> {
+    match (ty, v) {
+        (Ty::FlexVec(_, _), Value::Flex(_)) => Some(path.clone()),
+        (Ty::Struct(s), Value::Struct(fs)) => {
+            for (i, (t, x)) in s.fields.iter().zip(fs).enumerate() {
+                path.push(i as u16);
+                let r = any_flex(t, x, path);
+                path.pop();
+                if r.is_some() {
+                    return r;
+                }
+            }
+            None
+        }
+        (Ty::Enum(e), Value::Enum(k, fs)) => {
+            for (i, (t, x)) in e.variants[*k].fields.iter().zip(fs).enumerate() {
+                path.push(i as u16);
+                let r = any_flex(t, x, path);
+                path.pop();
+                if r.is_some() {
+                    return r;
+                }
+            }
+            None
+        }
+        _ => None,
+    }
+}
+
 fn probe(feature: &str) -> Result<String, String> {
     let out = std::process::Command::new("cargo")
         .args(["run", "--quiet", "--offline", "--features", feature])
@@ -334,6 +364,55 @@ impl Property for C17 {
                 }
             }
             st.label("route B: built by pushes");
+        }
+        // route C: the same value reached by shrinking (one extra item pushed, then pop / truncate)
+        if let Some(fpath) = any_flex(ty, &v, &mut vec![]) {
+            let (fty, fval) = super::history::resolve(ty, &v, &fpath).unwrap();
+            let items = fval.items().to_vec();
+            let item_ty = match fty {
+                Ty::FlexVec(t, _) => (**t).clone(),
+                _ => unreachable!(),
+            };
+            let extra_item = items.last().cloned().unwrap_or_else(|| super::common::minimal_values(&item_ty).remove(0));
+            let mut bigger = v.clone();
+            super::history::resolve_mut(&mut bigger, &fpath).items_mut().push(extra_item.clone());
+            let n2 = model::size_of(ty, &bigger) + extra;
+            if model::encode(ty, &bigger, n2, 0, &mut model::Canonical).is_ok() {
+                let mut buf = Guarded::new(n2, offs[0], true);
+                buf.slice().fill(fills[1]);
+                let mut out = None;
+                let use_pop = route.first().copied().unwrap_or(0) % 2 == 0;
+                st.eval(1);
+                let r = lib(|| {
+                    sh.new_in_place(buf.slice(), &bigger, &route, &mut |live| {
+                        let op = if use_pop { crate::glue::Op::FPop } else { crate::glue::Op::FTruncate(items.len()) };
+                        let _ = live.mutate(&fpath, &op);
+                        out = Some(live.read());
+                    })
+                });
+                let what = format!("{}: {} reached by emplacing one more item into the FlexVec at {:?} and then {}", name, v.show(), fpath, if use_pop { "pop()" } else { "truncate(len - 1)" });
+                match r {
+                    Err(p) => vfail!("panic", "{} panicked: {}", what, p),
+                    Ok(Err(e)) => vfail!("refused", "{}: emplacing failed: {}", what, show_err(&e)),
+                    Ok(Ok(())) => {}
+                }
+                let o = out.unwrap();
+                if o.value != v {
+                    vfail!("readback", "{}: reads back {}", what, o.value.show());
+                }
+                if o.size != want.len() && !ty.is_sized() {
+                    vfail!("size", "{}: size() = {} but the serialisation of this content has {} bytes (the image is not a function of the content)", what, o.size, want.len());
+                }
+                let got = &buf.as_ref()[..o.size.min(n2)];
+                for (i, w) in want.iter().enumerate() {
+                    if let Some(w) = w {
+                        if got.get(i) != Some(w) {
+                            vfail!("image", "{}: byte {} of the image is {:?}, the reference serialisation has {:#04x}\n got {}", what, i, got.get(i), w, hex(got));
+                        }
+                    }
+                }
+                st.label("route C: reached by shrinking");
+            }
         }
         if images[0] != images[1] {
             vfail!("address-dependence", "{}: the image of {} differs between address offsets {:?} / prefills", name, v.show(), offs);
